@@ -20,7 +20,11 @@ RULE = ("model tie: the extracted Coq models of HasherHybrid (padding on/off) an
         "entry starts on a piece boundary of the listed stream, padding entries have attr p and path [.pad, <len>], info.pieces = "
         "reference SHA-1 piece hashing of that stream with padding as zeros; single file: info.length = size, no files list, "
         "pieces "
-        "= hashing of the file alone.  A case is non-trivial when it is distinct and hits at least one boundary class.")
+        "= hashing of the file alone.  Every class-based creator runs on every tree plain, with align=True (an option of v1 metafiles "
+        "that every creator accepts) and with the public assemble() called again before write(); on a copy of the payload the "
+        "creators are constructed, one file grows / shrinks / is added / is removed, assemble() is called again and the metafile "
+        "is judged against the copy as it is then; the command line (a third of the trees and single files) also with --align and "
+        "with `align = true` in a configuration file.  A case is non-trivial when it is distinct and hits at least one boundary class.")
 RULE += ("  Unit correspondence of Model/Creators.v (the creator-level theorems rest on it): TorrentFileHybrid and "
          "TorrentAssembler (meta version 3), both on every tree, write a metafile for "
          "generated content trees (single file / flat / nested to depth 3 / a directory next to a sibling whose name sorts between "
